@@ -128,7 +128,7 @@ func run(c *lib.Ctx) error {
 		c.Logf("history seed %d: %d operations, system calls %v", seed, nOps, w)
 	}
 	c.Set("enumerated_syscalls_total", totalW)
-	lib.Parallel(len(jobs), 6, func(i int) {
+	lib.Parallel(len(jobs), 4, func(i int) {
 		jb := jobs[i]
 		g, err := experiment(c, scratch, fmt.Sprintf("e%d", i), jb.seed, nOps, crashPlan{sys: jb.sys, first: jb.j, second: 1 + int(jb.seed+int64(jb.j)*31)%11})
 		if err != nil {
@@ -140,7 +140,7 @@ func run(c *lib.Ctx) error {
 		gmu.Unlock()
 	})
 	// (2) random-time kills
-	lib.Parallel(nRandom, 6, func(i int) {
+	lib.Parallel(nRandom, 4, func(i int) {
 		seed := c.Seed*20011 + int64(i)
 		g, err := experiment(c, scratch, fmt.Sprintf("r%d", i), seed, nOps+4, crashPlan{random: true})
 		if err != nil {
@@ -184,7 +184,7 @@ func run(c *lib.Ctx) error {
 // judge hands the experiments to the TLC walker TraceStoreCrash (groups kept whole, several per TLC
 // process), reports rejected ones and counts which recovery class each crash fell into (tag P).
 func judge(c *lib.Ctx, dir, name string, groups [][]Event) error {
-	const par, target = 4, 400
+	const par, target = 3, 400
 	type chunk struct {
 		items []Event
 		gidx  []int // group index of every item
